@@ -38,11 +38,10 @@ namespace C07
 open Safety
 
 theorem ESafe_no_panic {P : α → Prop} {r : Except Err α} (h : ESafe P r) (w : String) :
-    r ≠ .error (.panic w) := by
-  intro he; rw [he] at h; exact absurd h (by simp)
+    r ≠ .error (.panic w) := h.ne_panic w
 
-theorem ESafe_no_fuel {P : α → Prop} {r : Except Err α} (h : ESafe P r) : r ≠ .error .fuel := by
-  intro he; rw [he] at h; exact absurd h (by simp)
+theorem ESafe_no_fuel {P : α → Prop} {r : Except Err α} (h : ESafe P r) : r ≠ .error .fuel :=
+  h.ne_fuel
 
 /-! ## one-shot entry points -/
 
@@ -202,6 +201,69 @@ theorem terminates_stream_feed {opts : Options} {st : Stream} (h : Reachable opt
     (fuel : Nat) (data : Bytes) (acc : Nat) (snk : Sink) :
     (st.feed fuel data acc snk).2.2 ≠ .error .fuel :=
   ESafe_no_fuel (Stream_feed_safe fuel st data acc snk h.inv).2
+
+/-! ## memory bounds (sizes of the model's data structures only)
+
+The invariants that the safety proofs carry through every iteration of the symbol loop
+(`DStateInv`, `CircSafe`, `AccumInv`) bound the sizes of all growing data structures. -/
+
+/-- Probability tables: the literal table has `2^(lc+lp) * 0x300 ≤ 3145728` entries, all
+other tables have their fixed size — in every decoder state the invariant holds for. -/
+theorem memory_bounds_probs {s : DState} (h : DStateInv s) :
+    s.probs.lit.size = 2 ^ (s.props.lc + s.props.lp) * 0x300 ∧ s.probs.lit.size ≤ 3145728 ∧
+    s.probs.posSlot.size = 256 ∧ s.probs.align.size = 16 ∧ s.probs.posDec.size = 115 ∧
+    s.probs.isMatch.size = 192 ∧ s.probs.isRep.size = 12 ∧ s.probs.isRepG0.size = 12 ∧
+    s.probs.isRepG1.size = 12 ∧ s.probs.isRepG2.size = 12 ∧ s.probs.isRep0Long.size = 192 ∧
+    s.probs.len.low.size = 128 ∧ s.probs.len.mid.size = 128 ∧ s.probs.len.high.size = 256 ∧
+    s.probs.repLen.low.size = 128 ∧ s.probs.repLen.mid.size = 128 ∧ s.probs.repLen.high.size = 256 ∧
+    s.partialBuf.length ≤ 20 := by
+  have hsz := h.probs.lit.1
+  rw [h.rows, Nat.shiftLeft_eq, Nat.one_mul] at hsz
+  have hle : 2 ^ (s.props.lc + s.props.lp) ≤ 2 ^ 12 :=
+    Nat.pow_le_pow_right (by omega) (by have := h.lc; have := h.lp; omega)
+  refine ⟨hsz, by omega, h.probs.posSlot.1, h.probs.align.1, h.probs.posDec.1, h.probs.isMatch.1,
+    h.probs.isRep.1, h.probs.isRepG0.1, h.probs.isRepG1.1, h.probs.isRepG2.1, h.probs.isRep0Long.1,
+    h.probs.len.low.1, h.probs.len.mid.1, h.probs.len.high.1, h.probs.repLen.low.1,
+    h.probs.repLen.mid.1, h.probs.repLen.high.1, h.pbuf⟩
+
+/-- Circular window: the lazily grown buffer is never larger than the dictionary size, the
+number of bytes produced so far, or the memory limit. -/
+theorem memory_bounds_window {w : Circ} (h : CircSafe w) :
+    w.buf.size ≤ w.dictSize ∧ w.buf.size ≤ w.len ∧ w.buf.size ≤ w.memlimit :=
+  ⟨h.2.2.2.1, h.2.2.2.2.1, h.2.2.2.2.2⟩
+
+/-- The symbol loop keeps these bounds (circular window), from any state where they hold. -/
+theorem memory_bounds_processMode (mode : DState.Mode) {s : DState} {w : Circ} {rc : RC} (rd : Rd)
+    (snk : Sink) (hs : DStateInv s) (hw : CircSafe w) (hrc : RCInv rc)
+    {s' : DState} {w' : Circ} {rc' : RC} {rd' : Rd}
+    (h : (s.processMode mode w rc rd snk).2 = .ok (s', w', rc', rd')) :
+    DStateInv s' ∧ CircSafe w' := by
+  have := processMode_safe (ω := Circ) mode rd hs hw hrc snk
+  rw [h] at this
+  exact ⟨this.1, this.2.1⟩
+
+/-- Accumulating window (LZMA2): the buffer holds exactly the bytes produced since the last
+reset, through the whole chunk loop. -/
+theorem memory_bounds_accum (fuel : Nat) {d : Lzma2Decoder} (accum : Accum) (rd : Rd) (snk : Sink)
+    (hd : Lzma2Reach d) (ha : accum.buf.size = accum.len) (hf : rd.rem.length < fuel)
+    {d' : Lzma2Decoder} {accum' : Accum} {rd' : Rd}
+    (h : (Lzma2Decoder.chunkLoop fuel d accum rd snk).2 = .ok (d', accum', rd')) :
+    accum'.buf.size = accum'.len := by
+  have := chunkLoop_safe fuel d accum rd hd.inv ha hf snk
+  rw [h] at this
+  exact this.2.1
+
+/-- A stream in the `Data` state, after any call sequence: window and tables are bounded. -/
+theorem memory_bounds_stream {opts : Options} {st : Stream} {rs : RunState}
+    (h : Reachable opts st) (hst : st.state = some (.data rs)) :
+    rs.output.buf.size ≤ rs.output.dictSize ∧ rs.output.buf.size ≤ rs.output.len ∧
+      rs.output.buf.size ≤ rs.output.memlimit ∧ rs.decoder.probs.lit.size ≤ 3145728 ∧
+      st.tmp.length ≤ 18 := by
+  have hi := h.inv
+  unfold StreamInv at hi
+  rw [hst] at hi
+  have := memory_bounds_window hi.2.2
+  exact ⟨this.1, this.2.1, this.2.2, (memory_bounds_probs hi.1).2.1, h.tmp_le⟩
 
 /-! ## non-vacuity: concrete runs (checked by kernel evaluation of the model)
 
